@@ -8,7 +8,7 @@ import re
 from props import units_main as UM
 STDIN = Query('main_stdin_script', 'harness', UM.unit_stdin, 'h_stdin_script', unwind=204, timeout=2400, extra_cbmc=['--max-field-sensitivity-array-size', '1100'],
               functions=['btcdeb.cpp: main() - the fragment that reads the script from standard input (fgets, terminator stripping, strdup)'], bounded='input lines of at most 18 characters plus terminator')
-QUERIES = [STDIN, L.CONTINUE, L.INSTANCE_STEP] + [q for q in C01.QUERIES if q.tier == 'quick' and re.match(r'step_(unary_8b|addsub_93|within_a5|cltv_b1|pickroll_79_n2)$', q.name)]
+QUERIES = [STDIN, L.SETUP, L.CONTINUE, L.INSTANCE_STEP] + [q for q in C01.QUERIES if q.tier == 'quick' and re.match(r'step_(unary_8b|addsub_93|within_a5|cltv_b1|pickroll_79_n2)$', q.name)]
 META = {'level': 'other', 'trusted_base': TRUSTED,
  'assumptions': ASSUME_COMMON + [
    "also claimed: the stdin script reader fragment of main() (the script is the input line without its LF / CRLF terminator, empty on no input) with fgets / strdup as stubs",
@@ -17,7 +17,7 @@ META = {'level': 'other', 'trusted_base': TRUSTED,
  ],
  'explanation': 'contract "no exception escapes, success only when finished" on the real ContinueScript and Instance::step with exception propagation encoded as a ghost flag (R-EXC); the raising sites themselves are obligations of the step queries; division/shift traps of the re-enabled opcodes are obligations of C17'}
 MANIFEST = {
- 'text': 'Abnormal-termination clause only: for every session state the real ContinueScript (the non-interactive driver) and Instance::step let no interpreter exception (script number overflow, non-minimal number, empty-stack pop, out_of_range) escape and report success only for a finished session; the places where the interpreter raises are pinned by the step contracts re-run here.',
+ 'text': 'Abnormal-termination clause (plus: the session setup_environment creates is finished at once only when there is nothing to execute, so an empty scriptSig never turns a failing scriptPubKey into an empty success): for every session state the real ContinueScript (the non-interactive driver) and Instance::step let no interpreter exception (script number overflow, non-minimal number, empty-stack pop, out_of_range) escape and report success only for a finished session; the places where the interpreter raises are pinned by the step contracts re-run here.',
  'note': 'Not claimed: exit status, output format, tty detection, --quiet/--debug independence (whole-process properties of a 500-line main()).',
  'technique': 'assume/assert exception-escape contract on the real ContinueScript / Instance::step (R-EXC flag encoding), callee replaced by a may-raise contract; CBMC',
  'design_ref': 'DESIGN.md 6 (C08)'}
